@@ -279,5 +279,18 @@ def witnessNanProbability : Machine :=
     states := [{ emptyState with
       transitions := some [⟨0, 0x7fc00000⟩] :: List.replicate (EVENT_NUM - 1) none }] }
 
+/-- a small well-formed machine (used as a non-vacuity example) -/
+def exampleMachine : Machine :=
+  { allowedPaddingPackets := 3, maxPaddingFrac := 0x3fe0000000000000, allowedBlockedMicrosec := 0,
+    maxBlockingFrac := 0x3ff0000000000000,
+    states := [
+      { emptyState with
+        action := some (.sendPadding false false ⟨.uniform 0 0x4024000000000000, 0, 0⟩
+          (some ⟨.poisson 0x4010000000000000, 0, 0⟩)),
+        transitions := some [⟨1, 0x3f000000⟩, ⟨STATE_END, 0x3e800000⟩] :: List.replicate (EVENT_NUM - 1) none },
+      { emptyState with
+        counterA := some ⟨.increment, some ⟨.geometric 0x3fd3333333333333, 0, 0⟩, false⟩,
+        transitions := List.replicate 3 none ++ [some [⟨0, 0x3f800000⟩]] ++ List.replicate (EVENT_NUM - 4) none }] }
+
 end C12
 end Mb
